@@ -141,13 +141,20 @@ func c14Specs() []*edt.Spec {
 				}
 				// msg ‖ I2OSP(len_in_bytes, 2) ‖ DST' ‖ I2OSP(len(DST'), 1) squeezed into out
 				lib := "agg([0]=(byte((len($out) >> 8))), [1]=(byte(len($out))))"
-				tail := "$domainSeparator, agg([0]=(byte(len($domainSeparator))))), $out)"
-				if e.V("dstOversize") == edt.T {
-					tail = "out1(io.ReadFull(H(fresh(sha3.ShakeHash.Clone(sha3.ShakeHash.Clone)), @primitives/h2c.oversizeDST, $domainSeparator), zero)), agg([0]=(32))), $out)"
-				}
-				for _, ev := range p.Events {
-					if strings.HasPrefix(ev, "io.ReadFull(H(fresh(sha3.ShakeHash.Clone), $message, "+lib+", ") && strings.HasSuffix(ev, tail) {
-						return ""
+				// the two XOF instances (main, DST shortening) are numbered in creation order: either order is fine
+				c1, c2 := "fresh(sha3.ShakeHash.Clone)", "fresh(sha3.ShakeHash.Clone(sha3.ShakeHash.Clone))"
+				for _, cl := range [][2]string{{c1, c2}, {c2, c1}} {
+					mainX, dstX := cl[0], cl[1]
+					tail := "$domainSeparator, agg([0]=(byte(len($domainSeparator))))), $out)"
+					if e.V("dstOversize") == edt.T {
+						tail = "out1(io.ReadFull(H(" + dstX + ", @primitives/h2c.oversizeDST, $domainSeparator), zero)), agg([0]=(32))), $out)"
+					} else if mainX != c1 {
+						continue // a single instance is the first one
+					}
+					for _, ev := range p.Events {
+						if strings.HasPrefix(ev, "io.ReadFull(H("+mainX+", $message, "+lib+", ") && strings.HasSuffix(ev, tail) {
+							return ""
+						}
 					}
 				}
 				return "a FRESH (cloned and reset) XOF must absorb msg ‖ I2OSP(len,2) ‖ DST' ‖ I2OSP(len(DST'),1) before len_in_bytes bytes are squeezed (and the over-long DST is shortened with a fresh XOF as well)"
